@@ -215,3 +215,44 @@ Definition serialize (sy : sys) : pres (list (list string)) :=
 (** write, then read *)
 Definition roundtrip (dbg : bool) (sy : sys) : pres sys :=
   ls <- serialize sy ;; parse_lines dbg ls.
+
+(** ** node-level inverse: what the reader rebuilds from the line the writer emits for [e],
+    when the operand ids of that line resolve to the children of [e] and the declared sort is
+    the type of [e] (used in Props/C09.v) *)
+Definition reread_node (dbg : bool) (e : expr) : pres expr :=
+  match node_line 0 0 e (map (fun _ => 0) (children e)) with
+  | POk toks =>
+      let op := tokn toks 1 in
+      match un_table op, children e with
+      | Some u, [a] => r <- lower_unary dbg toks u a ;; POk (fst r)
+      | _, _ =>
+          match bin_table op, children e with
+          | Some bo, [a; b] => lower_binary dbg (type_of e) bo a b
+          | _, _ =>
+              match children e with
+              | [a; b; c] => lower_ternary dbg (seq op "ite") a b c
+              | _ => PErr
+              end
+          end
+      end
+  | PErr => PErr
+  | PPanic k => PPanic k
+  end.
+
+(** the normal form the builders of context.rs produce: a slice of the whole operand and an
+    extension by zero bits are the operand itself *)
+Definition norm_node (e : expr) : expr :=
+  match e with
+  | BVSlice x hi lo => if (lo =? 0) && (hi + 1 =? width x) then x else e
+  | BVZeroExt x by_ _ | BVSignExt x by_ _ => if by_ =? 0 then x else e
+  | _ => e
+  end.
+
+(** all numeric attributes of the node fit the reader's u32 fields *)
+Definition node_fits (e : expr) : bool :=
+  match e with
+  | BVZeroExt _ by_ w | BVSignExt _ by_ w => (by_ <=? U32MAX) && (w <=? U32MAX)
+  | BVSlice _ hi lo => (hi <? U32MAX) && (lo <=? U32MAX)
+  | BVConcat _ _ w => w <=? U32MAX
+  | _ => true
+  end.
